@@ -1621,7 +1621,11 @@ func (h *Hashgraph) CheckBlock(block *Block, peerSet *peers.PeerSet) error {
 		return fmt.Errorf("Wrong PeerSet")
 	}
 
+	// Count each validator once: the signature map is keyed by the string
+	// representation of the public key, and the same key can be spelled in
+	// several ways (letter case, prefix) in a block received from a peer.
 	validSignatures := 0
+	counted := make(map[string]bool)
 	for _, s := range block.GetSignatures() {
 		validatorHex := s.ValidatorHex()
 		if _, ok := peerSet.ByPubKey[validatorHex]; !ok {
@@ -1630,8 +1634,12 @@ func (h *Hashgraph) CheckBlock(block *Block, peerSet *peers.PeerSet) error {
 			}).Warning("Verifying Block signature. Unknown validator")
 			continue
 		}
+		if counted[validatorHex] {
+			continue
+		}
 		ok, _ := block.Verify(s)
 		if ok {
+			counted[validatorHex] = true
 			validSignatures++
 		}
 	}
